@@ -90,7 +90,9 @@ Definition cmon_step (cfg : config) (m : cmst) (ev : event) : cmst + Z :=
       end
   | EForce cl =>
       if m_active m then inr 42
-      else if force_code cfg a cl =? 0 then inl m else inr (force_code cfg a cl)
+      else if force_code cfg a cl =? 0
+           then inl (mkCM a (m_tick m) (m_active m) (m_proceed m) (m_gstart m) (m_relive a (m_cands m)) (m_bad m) (m_added m))
+           else inr (force_code cfg a cl)
   | EClock =>
       let t := a_now a + 1 in
       let tk := match m_tick m with
